@@ -187,7 +187,7 @@ def o_add_determinant(ctx):
                                          eq(g.determinants['coulomb'][1].value * k, v2)))
 
 
-def mk_pipeline_sum(name, args=()):
+def mk_pipeline_sum(name, args=(), params=None):
     """at the end of the whole pipeline (incl. coupling effects and the removal
     of penalised determinants) every group's pKa is the sum of what is THEN in
     its lists -- in every conformation and in the average -- and the written
@@ -200,7 +200,7 @@ def mk_pipeline_sum(name, args=()):
 
         def tr(a):
             a.z = a.z + t
-        mol = M.run(M.text(name), args=list(args), transform=tr)
+        mol = M.run(M.text(name), args=list(args), transform=tr, params=params)
         for cname, conf in mol.conformations.items():
             for g in conf.groups:
                 if g.atom.cysteine_bridge:
@@ -257,12 +257,14 @@ def obligations(tier):
     fx = [('nterm_ASP_LYS', ()), ('pep8', ()), ('lig_MTX', ()), ('pair_GLU_ARG_TYR', ()), ('pair_CYS_CYS_bridge', ())]
     if tier == 'thorough':
         fx += [('pair_ASP_ARG', ()), ('pair_LYS_ASP', ()), ('pair_ASP_ASP', ('-d',)), ('lig_KNI', ()), ('cterm_PHE', ()), ('tri_HIS', ()), ('nterm_ASP_LYS', ('-d',))]
+    from .micro import BURIED
     for name, args in fx:
-        obs.append(Obligation('O2-pipeline-end-state[%s%s]' % (name, ',' + ' '.join(args) if args else ''), mk_pipeline_sum(name, args),
+      for params, ptag in ((None, ''), (BURIED, ',buried')):
+        obs.append(Obligation('O2-pipeline-end-state[%s%s%s]' % (name, ',' + ' '.join(args) if args else '', ptag), mk_pipeline_sum(name, args, params),
                               code=['propka/conformation_container.py:ConformationContainer.calculate_pka', 'propka/conformation_container.py:ConformationContainer.coupling_effects',
                                     G + 'Group.remove_determinants', G + 'Group.calculate_total_pka', 'propka/molecular_container.py:MolecularContainer.average_of_conformations',
                                     'propka/output.py:get_determinant_section'],
-                              bounds='micro-structure %s %s under a symbolic grid translation t in [0,2.509] along z; whole pipeline' % (name, ' '.join(args)),
+                              bounds='micro-structure %s %s%s under a symbolic grid translation t in [0,2.509] along z; whole pipeline' % (name, ' '.join(args), ' (Nmin/Nmax lowered to 6/30: burial, Coulomb, iterative and coupling paths active)' if params else ''),
                               claim_doc='in every conformation and the average pKa == model + desolvation + the determinants then listed; written rows add up to the printed pKa',
                               max_paths=5000, wall_s=170 if tier == 'quick' else 1200))
     if tier == 'thorough':
